@@ -40,11 +40,20 @@ def run_tie(functions, n, seed_, ulps=None, corpus=None):
             cases.append(gen(rng))
         lines, impl_out = [], []
         stats = Stats()
+        rng_t = random.Random(f'{seed_}:{fn}:types')
+        used = []
         for args in cases:
             toks = []
-            for k, v in zip(kinds, args):
-                toks += gens.encode_arg(k, v)
             args = list(args)
+            for i, (k, v) in enumerate(zip(kinds, args)):
+                # a whole number written as a Python int (30 instead of 30.0): the same number for the model, another type for
+                # the code (a change that treats `int` and `float` arguments differently shows here)
+                if k == 'num' and type(v) is float and abs(v) < 1e12 and rng_t.random() < 0.04:
+                    iv = int(round(v))
+                    args[i] = iv
+                    v = float(iv)
+                toks += gens.encode_arg(k, v)
+            used.append(args)
             lines.append(fn + ' ' + ' '.join(toks))
             try:
                 r = impl(*args)
@@ -59,7 +68,7 @@ def run_tie(functions, n, seed_, ulps=None, corpus=None):
         model_out = drv.run(lines)
         nontrivial = set()
         dis = []
-        for args, a, b, line in zip(cases, impl_out, model_out, lines):
+        for args, a, b, line in zip(used, impl_out, model_out, lines):
             if a.startswith(IMPLICIT):
                 # interpreter-raised exception (division by zero, math domain, None arithmetic):
                 # the Float model has no exceptions inside expressions; not compared, counted.
